@@ -41,7 +41,14 @@ MANIFEST = dict(
          "but is outside ModWF: the simulation theorems do not cover modules containing it. "
          "The generators combine speed / tempo changes with pattern / row delays inside one pattern (EEx after Fxx, S3M SEx after Axx, IT S6x and SEx "
          "after Axx / Txx); the oracle also runs a reposition tour on multi-sequence modules (one running player, xmp_set_position from the middle of one "
-         "sequence to the entry point of another and back: rendered time and row trace of the target must equal its reported duration / its fresh run).",
+         "sequence to the entry point of another and back: rendered time and row trace of the target must equal its reported duration / its fresh run), "
+         "followed by player restarts: another sequence selected, xmp_end_player + xmp_start_player, then order 0 must play as the main sequence; "
+         "xmp_restart_module in the middle of each sequence (preferably in the middle of a pattern-delay / row-delay row), then the sequence must play "
+         "again from its entry point with its duration, trace and loop point. "
+         "The scan's runaway guard (row_count_total > row_limit = 512, checked at the top of every row before the scan_cnt test, reset only at the "
+         "bottom of the order loop) is part of the model; ModWF bounds patterns to 256 rows and C18_row_guard_idle / C18_row_guard_idle_all prove "
+         "that for such modules the guard never fires; 20% of the generated modules are long chains of orders left by position jumps "
+         "(far more than 512 rows in a row, mixed with orders left by running off the end; the MED limit 3200 does not apply to the four formats).",
     note="Trusted: Lean kernel (axioms propext/Classical.choice/Quot.sound only), the hand-written model XmpModel/LinFlow.lean, "
          "the four Python module writers, the harness and the differ. Modelled-not-verified: everything in scan.c/player.c outside the "
          "vocabulary (pattern breaks, pattern loops, IT tempo slides T0x/T1x, line jumps, global volume, ST2.6/FAR/ULT tempo, QUIRK_PROTRACK delay+break), "
@@ -59,6 +66,7 @@ REQUIRED = ["Xmp.LinFlow.C18_tick_exact", "Xmp.LinFlow.C18_row_accounting", "Xmp
             "Xmp.LinFlow.C18_order_step", "Xmp.LinFlow.C18_pattern_step", "Xmp.LinFlow.C18_scan_eq_play_seq",
             "Xmp.LinFlow.C18_duration_within_ms", "Xmp.LinFlow.C18_scan_eq_play_checked",
             "Xmp.LinFlow.C18_order_start_time", "Xmp.LinFlow.C18_scan_eq_play",
+            "Xmp.LinFlow.C18_row_accounting_rowdelay", "Xmp.LinFlow.C18_row_guard_idle", "Xmp.LinFlow.C18_row_guard_idle_all",
             "Xmp.LinFlow.C18_loop_count"]
 
 FORMATS = ("mod", "xm", "s3m", "it")
@@ -207,6 +215,50 @@ def gen_tour_mod(rng, fmt):
         spd, bpm = rng.choice([3, 6, 6, 10]), rng.choice([80, 125, 125, 200])
     return dict(fmt=fmt, chn=chn, orders=orders, pats=pats, rst=0, spd=spd, bpm=bpm,
                 magic="M.K." if fmt == "mod" else None, style="tour")
+
+
+def gen_chain_mod(rng, fmt):
+    """A long linear chain of orders, most of them left by a position jump on their last row (to the next order),
+    some by running off the end of the pattern: far more than 512 rows in a row of jump-chained orders (the scan's
+    runaway guard counts the rows of ONE order visit and must be reset however the order is left)."""
+    chn = {"mod": 4, "xm": rng.choice([2, 4]), "s3m": rng.choice([1, 4]), "it": rng.choice([1, 3])}[fmt]
+    if fmt in ("mod", "s3m"):
+        nr_of = lambda: 64
+        n = rng.randint(11, 18)
+    else:
+        big = rng.random() < 0.5
+        nr_of = (lambda: rng.choice([256, 256, 200, 255] if fmt == "xm" else [200, 200, 180, 199])) if big else (lambda: 64)
+        n = rng.randint(4, 7) if big else rng.randint(11, 16)
+    runoff = set(i for i in range(n) if rng.random() < 0.12)
+    # keep one run of jump-exited orders of more than 512 rows
+    pats, orders = [], []
+    blank = {}
+    for i in range(n):
+        nr = nr_of()
+        last = i == n - 1
+        if i in runoff and not last:
+            if nr not in blank:
+                blank[nr] = len(pats)
+                pats.append([None] * nr)
+            orders.append(blank[nr])
+            continue
+        rows = [None] * nr
+        if i == 0:
+            rows[0] = ("s", rng.choice([1, 1, 2]), rng.randrange(chn))
+        elif rng.random() < 0.3:
+            r = rng.randrange(0, nr - 1)
+            rows[r] = rng.choice([("d", rng.choice([1, 2]), rng.randrange(chn)), ("s", rng.choice([1, 2, 3]), rng.randrange(chn)),
+                                  ("t", rng.choice([125, 200, 255]), rng.randrange(chn))])
+        tgt = rng.choice([0, 0, n, i]) if last else (i + 1 if rng.random() < 0.93 else min(n - 1, i + 2))
+        rows[nr - 1] = ("j", tgt, rng.randrange(chn))
+        orders.append(len(pats))
+        pats.append(rows)
+    if fmt == "mod":
+        spd, bpm = 6, 125
+    else:
+        spd, bpm = rng.choice([1, 1, 2]), rng.choice([125, 200, 255])
+    return dict(fmt=fmt, chn=chn, orders=orders, pats=pats, rst=0, spd=spd, bpm=bpm,
+                magic="M.K." if fmt == "mod" else None, style="chain")
 
 
 def gen_long_mod(rng):
@@ -400,7 +452,7 @@ def parse_cases(text):
             cur["model_in"].append(line)
         elif line.startswith("oracle_fail"):
             cur["oracle"].append(line)
-        elif line.startswith(("note ", "aux ", "cap ", "loadfail", "tour ")):
+        elif line.startswith(("note ", "aux ", "cap ", "loadfail", "tour ", "restarts ")):
             cur["notes"].append(line)
         elif line == "endcase":
             cur = None
@@ -599,6 +651,8 @@ def run(ck):
             d = gen_long_mod(ck.rng)        # quick: 8 per run; thorough: ~5% of the MODs
         elif i % 20 >= 16:
             d = gen_tour_mod(ck.rng, fmt)   # 20%: sequences that never join, each with its own speed / tempo
+        elif i % 20 >= 12:
+            d = gen_chain_mod(ck.rng, fmt)  # 20%: > 512 rows in orders chained by position jumps
         else:
             d = gen_module(ck.rng, fmt, big=(ck.rng.random() < 0.05))
         data, exp_orders = write_module(d)
@@ -622,7 +676,8 @@ def run(ck):
     stats = dict(modules=0, sequences=0, multi_sequence_modules=0, frames=0, rows=0, capped=0, loadfail=0,
                  jumps_beyond_len=0, marker_orders=0, invalid_orders=0, restart_nonzero=0, one_row_patterns=0,
                  nobpm=0, long_mods=0, long_mods_vblank_reading_won=0, long_mods_cia_reading_kept=0, long_mods_below_threshold=0, rejected_both=0, corpus_cases=0, oracle_failures=0, model_traces_agree=0, foreign_end=0, model_recs_agree=0, seqhyp_holds=0, seqhyp_fails=0, modwf_holds=0, rowdelay_modules=0,
-                 tour_modules=0, tour_visits=0, tour_visits_ok=0, speed_then_delay_modules=0)
+                 tour_modules=0, tour_visits=0, tour_visits_ok=0, speed_then_delay_modules=0,
+                 restart_visits=0, restart_visits_ok=0, chain_modules=0, chain_rows_max=0)
     per_fmt = {f: 0 for f in FORMATS}
     for (rc, out, err), sh in zip(results, shards):
         cases = parse_cases(out)
@@ -708,6 +763,9 @@ def run(ck):
             stats["invalid_orders"] += 1 if any(o >= len(d["pats"]) + (1 if fmt == "xm" else 0) and o < 0xfe for o in exp_orders) else 0
             stats["restart_nonzero"] += 1 if c["model_in"][0].split()[2] != "0" else 0
             stats["one_row_patterns"] += 1 if any(len(r) == 1 for r in d["pats"]) else 0
+            if d.get("style") == "chain":
+                stats["chain_modules"] += 1
+                stats["chain_rows_max"] = max(stats["chain_rows_max"], sum(len(d["pats"][o]) for o in d["orders"] if o < len(d["pats"])))
             def _sd(rows):
                 seen = False
                 for ev in rows:
@@ -746,6 +804,10 @@ def run(ck):
                     stats["tour_visits"] += int(f[1])
                     stats["tour_visits_ok"] += int(f[3])
                     stats["tour_modules"] += 1
+                if l.startswith("restarts "):
+                    f = l.split()
+                    stats["restart_visits"] += int(f[1])
+                    stats["restart_visits_ok"] += int(f[3])
             if has_r:
                 mo_chk = []
             else:
@@ -790,7 +852,8 @@ def run(ck):
     ck.cov["rule"] = ("cases = random linear-flow modules (format, channels, order list incl. invalid entries / S3M-IT markers, pattern "
                       "count and lengths incl. 1-row patterns, speed 1..31 / tempo 32..255 / delay 0..15 (IT: S6x and row delay SEx) / jump 0..255 "
                       "effects on random channels, speed / tempo changes followed by delays inside one pattern, restart position, initial speed "
-                      "and tempo; modules with several never-joining sequences of different speed / tempo for the reposition tour; plus long Protracker M.K. MODs around the 8-minute CIA/VBlank "
+                      "and tempo; modules with several never-joining sequences of different speed / tempo for the reposition / restart tour; long "
+                      "chains (> 512 rows) of orders each left by a position jump; plus long Protracker M.K. MODs around the 8-minute CIA/VBlank "
                       "comparison threshold of the scan, either reading winning) generated from VERIF_SEED and written as real files; distinct by "
                       "hash of the file; non-trivial = at least one flow effect or more than one sequence")
     ck.assumptions += [
